@@ -128,15 +128,19 @@ def feed (m : Map V) : List Nat → List Nat → List Nat × List (Option V)
 
 `c18 km <op> …` runs a script on two maps `A`, `B` (values are naturals) and a matcher state; one answer per op:
 
-* `ra=<chord>=<v>` / `rb=…`  register on `A` / `B`; answer = the returned previous entry: `-`, `v<old>`, `m(<enum>)`
+* `ra=<chord>=<v>` / `rb=…`  register on `A` / `B`; answer `r`
+                             (`kmrep`: the returned previous entry: `-`, `v<old>`, `m(<enum>)`)
 * `l=<chord>`                `A.lookup` → `S<v>` | `C` | `F`
 * `e` / `eb`                 `for_each` of `A` / `B` → `[chord=v;chord=v…]`
 * `o`                        `A.register_override(&B)`
-* `k=<key>`                  `A.lookup_state(&mut state, key)` → `N` | `S<v>`, then `/` and the state left
+* `k=<key>`                  `A.lookup_state(&mut state, key)` → `N` | `S<v>`
+                             (`kmrep`: the key vector left in `state`)
 * `s=<chord>`                set the matcher state
 * `c`                        `A.clear()`
 
-chords = keys (`Variant:payload:bits`) joined by `,`; `-` = empty chord. -/
+chords = keys (`Variant:payload:bits`) joined by `,`; `-` = empty chord.
+`c18 kmrep <op> …` runs the same kind of script and prints only the representation answers, so that the check can
+tell a change of behaviour (a `km` line differs) from a change of representation only (only `kmrep` lines differ). -/
 
 open SurfModel.KeyParse in
 def readChord (s : String) : Option (List Key) :=
@@ -171,27 +175,30 @@ def showRes : Res Nat → String
   | .continue_ => "C"
   | .failure => "F"
 
-def step (st : St) (op : String) : St × String :=
+/-- one op: new state, the answer as far as its *effect* goes (`km` lines), and — for registrations and matcher
+    keys — the API-observable *representation* (`kmrep` lines): the previous entry `register` returned, the
+    key vector `lookup_state` left behind -/
+def step (st : St) (op : String) : St × String × Option String :=
   match op.splitOn "=" with
   | ["ra", c, v] =>
     match readChord c, v.toNat? with
     | some c, some v =>
       let (st, c) := st.intern c
-      ({ st with a := register st.a c v }, st.showPrev (registerPrev st.a c))
-    | _, _ => (st, "bad-op")
+      ({ st with a := register st.a c v }, "r", some (st.showPrev (registerPrev st.a c)))
+    | _, _ => (st, "bad-op", none)
   | ["rb", c, v] =>
     match readChord c, v.toNat? with
     | some c, some v =>
       let (st, c) := st.intern c
-      ({ st with b := register st.b c v }, st.showPrev (registerPrev st.b c))
-    | _, _ => (st, "bad-op")
+      ({ st with b := register st.b c v }, "r", some (st.showPrev (registerPrev st.b c)))
+    | _, _ => (st, "bad-op", none)
   | ["l", c] =>
     match readChord c with
-    | some c => let (st, c) := st.intern c; (st, showRes (lookup st.a c))
-    | none => (st, "bad-op")
-  | ["e"] => (st, s!"[{st.showEnum (forEach st.a)}]")
-  | ["eb"] => (st, s!"[{st.showEnum (forEach st.b)}]")
-  | ["o"] => ({ st with a := registerOverride st.a st.b }, "o")
+    | some c => let (st, c) := st.intern c; (st, showRes (lookup st.a c), none)
+    | none => (st, "bad-op", none)
+  | ["e"] => (st, s!"[{st.showEnum (forEach st.a)}]", none)
+  | ["eb"] => (st, s!"[{st.showEnum (forEach st.b)}]", none)
+  | ["o"] => ({ st with a := registerOverride st.a st.b }, "o", none)
   | ["k", k] =>
     match readChord k with
     | some [k] =>
@@ -200,22 +207,33 @@ def step (st : St) (op : String) : St × String :=
       | [k] =>
         let r := lookupState st.a st.state k
         let st := { st with state := r.1 }
-        (st, (match r.2 with | none => "N" | some v => s!"S{v}") ++ "/" ++ st.showChord r.1)
-      | _ => (st, "bad-op")
-    | _ => (st, "bad-op")
+        (st, (match r.2 with | none => "N" | some v => s!"S{v}"), some (st.showChord r.1))
+      | _ => (st, "bad-op", none)
+    | _ => (st, "bad-op", none)
   | ["s", c] =>
     match readChord c with
-    | some c => let (st, c) := st.intern c; ({ st with state := c }, "s")
-    | none => (st, "bad-op")
-  | ["c"] => ({ st with a := .nil }, "c")
-  | _ => (st, "bad-op")
+    | some c => let (st, c) := st.intern c; ({ st with state := c }, "s", none)
+    | none => (st, "bad-op", none)
+  | ["c"] => ({ st with a := .nil }, "c", none)
+  | _ => (st, "bad-op", none)
 
-def runScript : St → List String → List String → List String
-  | _, [], acc => acc.reverse
-  | st, op :: ops, acc => let r := step st op; runScript r.1 ops (r.2 :: acc)
+def runScript : St → List String → List String → List String → List String × List String
+  | _, [], eff, rep => (eff.reverse, rep.reverse)
+  | st, op :: ops, eff, rep =>
+    let r := step st op
+    runScript r.1 ops (r.2.1 :: eff) (match r.2.2 with | some x => x :: rep | none => rep)
+
+open SurfModel.KeyParse in
+/-- `cmp <key> <key>`: `Ord::cmp` of two keys = comparison of their codes -/
+def handleCmp (a b : String) : String :=
+  match readKey a, readKey b with
+  | some a, some b => if a.code < b.code then "lt" else if a.code = b.code then "eq" else "gt"
+  | _, _ => "bad-op"
 
 def handle : List String → String
-  | "km" :: ops => " ".intercalate (runScript {} ops [])
+  | "km" :: ops => " ".intercalate (runScript {} ops [] []).1
+  | "kmrep" :: ops => " ".intercalate (runScript {} ops [] []).2
+  | ["cmp", a, b] => handleCmp a b
   | rest => SurfModel.KeyParse.handle rest
 
 end SurfModel.KeyMap
